@@ -29,7 +29,8 @@ def conv(typ, v):
 
 
 TYPES = ["int", "float", "np64", "np32", "npint", "Q"]
-KEYSETS = [["a", "b", "c", "d"], [0, 1, 2, 3], [("t", 1), ("t", 2), ("u", 1)], ["x", 7, ("k",), 2.5]]
+KEYSETS = [["a", "b", "c", "d"], [0, 1, 2, 3], [("t", 1), ("t", 2), ("u", 1)], ["x", 7, ("k",), 2.5],
+           list(range(9)), [f"label{j}" for j in range(7)], ["a", "b"]]
 
 
 def finite(v):
